@@ -93,8 +93,10 @@ var typeNeedMask = map[string]uint32{
 	"NumField": kmask(reflect.Struct),
 	"Field":    kmask(reflect.Struct),
 	"Len":      kmask(reflect.Array),
-	"NumIn":    kmask(reflect.Func),
-	"NumOut":   kmask(reflect.Func),
+	"Bits": kmask(reflect.Int, reflect.Int8, reflect.Int16, reflect.Int32, reflect.Int64, reflect.Uint, reflect.Uint8, reflect.Uint16, reflect.Uint32, reflect.Uint64, reflect.Uintptr,
+		reflect.Float32, reflect.Float64, reflect.Complex64, reflect.Complex128),
+	"NumIn":  kmask(reflect.Func),
+	"NumOut": kmask(reflect.Func),
 }
 
 // ReflectSite records what happened at one reflect call site.
@@ -341,7 +343,7 @@ func (w *WalkEnv) install() {
 		}
 	}
 	// --- reflect.Type methods (interface calls)
-	for _, m := range []string{"Kind", "Key", "Elem", "NumField", "Field", "Name", "String", "PkgPath", "Len"} {
+	for _, m := range []string{"Kind", "Key", "Elem", "NumField", "Field", "Name", "String", "PkgPath", "Len", "Bits"} {
 		m := m
 		in.Models["invoke:"+m+"@reflect.Type"] = func(in *Interp, site ssa.Instruction, cc *ssa.CallCommon, a []AVal) (AVal, bool) {
 			key := keyOf(a[0])
